@@ -849,3 +849,118 @@ def f10(repo: Repo) -> RuleResult:
             except Inconclusive as e:
                 res.unsure(f"F10: {namer} / {K.name}: {e}")
     return res
+
+
+# --------------------------------------------------------------------------
+# F11 definition-kind dispatchers of the renderers
+# --------------------------------------------------------------------------
+
+DEF_KINDS = ("Alias", "Constant", "Enum", "Message")
+
+
+def dispatch_tables(repo: Repo) -> Dict[Tuple[str, str], Dict[str, List[Tuple[str, Tuple[str, ...]]]]]:
+    """(renderer module, dispatcher class) -> definition kind -> [(block class or 'None', conditions)],
+    from the paths of `dispatch(self, d)` with the class of d fixed by the scenario."""
+    from .emit import FORMATTERS, block_flow
+    from .normal import V, show
+    from .pyflow import show_lit, single_atom
+    from .pymodel import get_model
+
+    m = get_model(repo)
+    out: Dict[Tuple[str, str], Dict[str, List[Tuple[str, Tuple[str, ...]]]]] = {}
+    for sfx, (fcn, frel) in FORMATTERS.items():
+        mod = m.mod(sfx)
+        for ci in mod.classes.values():
+            fi = m.lookup(ci, "dispatch")
+            if fi is None or fi.cls is None or not fi.cls.rel.endswith(sfx) or len(fi.node.args.args) < 2:
+                continue
+            dn = fi.node.args.args[1].arg
+            row: Dict[str, List[Tuple[str, Tuple[str, ...]]]] = {}
+            for K in DEF_KINDS:
+                flow = block_flow(repo, ci.name, sfx, fcn, frel, {dn: K}, inline_props=True)
+                outs = set()
+                for p in flow.run(fi.node, {"self": V("self"), dn: V(dn)}):
+                    if p.done != "return":
+                        continue
+                    a = single_atom(p.ret) if p.ret is not None else None
+                    nm = "None" if (a is None or a[0] == "none") else (a[1] if a[0] in ("new", "call") and isinstance(a[1], str) else show(p.ret)[:40])
+                    conds = tuple(show_lit(k, t) for k, t in p.guards if "_ctx is None" not in show_lit(k, t))
+                    outs.add((nm, conds))
+                row[K] = sorted(outs)
+            out[(sfx, ci.name)] = row
+    return out
+
+
+@rule("F11", "renderers: every kind of definition reaches its block in every mode; declarations and definitions cover the same kinds; only -F makes a block conditional")
+def f11(repo: Repo) -> RuleResult:
+    res = RuleResult("F11", floor=6)
+    try:
+        T = dispatch_tables(repo)
+    except Inconclusive as e:
+        res.unsure(f"F11: {e}")
+        return res
+
+    def kinds_of(row: Dict[str, Any]) -> Set[str]:
+        return {K for K, outs in row.items() if any(nm != "None" for nm, _ in outs)}
+
+    langs = {"impls/c/renderer_c.py": "c", "impls/c/renderer_h.py": "c", "impls/go/renderer.py": "go", "impls/py/renderer.py": "py"}
+    for (sfx, cname), row in sorted(T.items()):
+        res.inst(part=langs.get(sfx, "?"), module=sfx.split("/")[-1], dispatcher=cname, kinds=sorted(kinds_of(row)))
+        rel = "compiler/bitproto/renderer/" + sfx
+        for K, outs in row.items():
+            blocks = {nm for nm, _ in outs if nm != "None"}
+            if not blocks:
+                continue
+            if len(blocks) > 1:
+                res.unsure(f"F11: {cname}.dispatch: {K} reaches {sorted(blocks)}")
+                continue
+            # the only thing that may keep a definition from its block is the -F filter naming other messages
+            for nm, conds in outs:
+                if nm != "None":
+                    continue
+                other = [c for c in conds if "optimization_mode_filter_messages" not in c and "filter_messages" not in c]
+                if other or not conds:
+                    f = Finding("F11", rel, 0, f"{cname}.dispatch", "; ".join(conds), f"a {K} definition gets no block on the path under {list(conds) or 'no condition'} although other {K} definitions get {sorted(blocks)[0]}: what the other files of the output declare / call for it is missing", witness="message Ping {} with -O: EncodePing is declared in the header and defined nowhere", tag=f"{cname}:{K}:conditional")
+                    f.part = langs.get(sfx, "?")
+                    res.bad(f)
+        # a dispatcher that emits constants emits the data structures: all four kinds
+        if "Constant" in kinds_of(row) and kinds_of(row) != set(DEF_KINDS):
+            missing = sorted(set(DEF_KINDS) - kinds_of(row))
+            f = Finding("F11", rel, 0, f"{cname}.dispatch", str(sorted(kinds_of(row))), f"the dispatcher of the declarations handles {sorted(kinds_of(row))} but not {missing}: definitions of that kind vanish from the output", witness="const N = 4 / enum / alias / message missing in the generated file", tag=f"{cname}:kinds")
+            f.part = langs.get(sfx, "?")
+            res.bad(f)
+    # per module: the optimization-mode dispatcher of the declarations covers what the standard one covers
+    for sfx in sorted({s_ for s_, _ in T}):
+        data = {c_: kinds_of(r_) for (s_, c_), r_ in T.items() if s_ == sfx}
+        std_data = [c_ for c_, k_ in data.items() if "Constant" in k_ and not c_.endswith("OpMode")]
+        has_opmode = any(c_.endswith("OpMode") for c_ in data)
+        op_data = [c_ for c_, k_ in data.items() if "Constant" in k_ and c_.endswith("OpMode")]
+        if std_data and has_opmode and not op_data and sfx != "impls/c/renderer_c.py" and any(c_ == std_data[0] + "OpMode" for c_ in data):
+            f = Finding("F11", "compiler/bitproto/renderer/" + sfx, 0, std_data[0] + "OpMode.dispatch", str(data.get(std_data[0] + "OpMode")), f"in optimization mode the declarations dispatcher does not handle constants although {std_data[0]} does: -O drops them from the output", witness="const N = 4 compiled with -O", tag=f"{sfx}:opmode-constants")
+            f.part = langs.get(sfx, "?")
+            res.bad(f)
+    # C: what the source defines functions for, the header declares functions for (standard and -O separately)
+    src = {c_: r_ for (s_, c_), r_ in T.items() if s_ == "impls/c/renderer_c.py"}
+    hdr = {c_: r_ for (s_, c_), r_ in T.items() if s_ == "impls/c/renderer_h.py" and "Constant" not in kinds_of(r_)}
+    for opmode in (False, True):
+        defined: Set[str] = set()
+        declared: Set[str] = set()
+        for c_, r_ in src.items():
+            if c_.endswith("OpMode") == opmode:
+                defined |= kinds_of(r_)
+        for c_, r_ in hdr.items():
+            if c_.endswith("OpMode") == opmode:
+                declared |= kinds_of(r_)
+        res.inst(part="c", mode="-O" if opmode else "standard", defined=sorted(defined), declared=sorted(declared))
+        if not src or not hdr:
+            res.unsure("F11: C dispatchers of source / header not found")
+            break
+        if defined - declared:
+            f = Finding("F11", "compiler/bitproto/renderer/impls/c/renderer_h.py", 0, "function declarations", f"declared {sorted(declared)}, defined {sorted(defined)}", f"the C source defines functions for {sorted(defined)} definitions ({'-O' if opmode else 'standard mode'}) but the header declares functions only for {sorted(declared)}: an importing file that uses a {sorted(defined - declared)[0]} of this file calls an undeclared function", witness="app.bitproto imports units.bitproto and has a field of an alias type declared there: app_bp.c does not compile", tag=f"c:{'opmode' if opmode else 'std'}:undeclared")
+            f.part = "c"
+            res.bad(f)
+        if declared - defined:
+            f = Finding("F11", "compiler/bitproto/renderer/impls/c/renderer_c.py", 0, "function definitions", f"declared {sorted(declared)}, defined {sorted(defined)}", f"the header declares functions for {sorted(declared - defined)} definitions that the C source does not define ({'-O' if opmode else 'standard mode'}): calling the documented function fails to link", tag=f"c:{'opmode' if opmode else 'std'}:undefined")
+            f.part = "c"
+            res.bad(f)
+    return res
